@@ -1,45 +1,59 @@
-use std::{ffi::OsString, path::PathBuf};
+//! C12: the real CLI filterer (hook H1: args_from + WatchexecFilterer::new) under all 64 mixes of the six
+//! ignore-discovery flags, for each explicit filtering option, in a fixture project with one probe per source.
+//! Output: one case line `FLAGS\t<mask>` and one observation line per mask.
+use std::{ffi::OsString, io::Write, path::PathBuf};
 use watchexec::filter::Filterer;
 use watchexec_cli::verif;
 use watchexec_events::{filekind::*, Event, FileType, Priority, Source, Tag};
+use wxharness_cli::out;
 
-fn probe(p: PathBuf) -> Event { Event { tags: vec![Tag::Source(Source::Filesystem), Tag::FileEventKind(FileEventKind::Modify(ModifyKind::Data(DataChange::Content))), Tag::Path { path: p, file_type: Some(FileType::File) }], metadata: Default::default() } }
+fn probe(p: PathBuf, kind: FileEventKind) -> Event { Event { tags: vec![Tag::Source(Source::Filesystem), Tag::FileEventKind(kind), Tag::Path { path: p, file_type: Some(FileType::File) }], metadata: Default::default() } }
 
 #[tokio::main(flavor = "multi_thread", worker_threads = 2)]
 async fn main() {
-    let fx = std::env::temp_dir().join(format!("fx-{}", std::process::id()));
+    let fx = std::env::temp_dir().join(format!("wxfx-{}", std::process::id()));
     let _ = std::fs::remove_dir_all(&fx);
-    std::fs::create_dir_all(fx.join("proj/.git")).unwrap(); std::fs::create_dir_all(fx.join("home/.config/watchexec")).unwrap();
-    let fx = std::fs::canonicalize(&fx).unwrap(); let proj = fx.join("proj");
-    std::fs::write(fx.join("home/.gitignore"), "*.gg\n").unwrap();
-    std::fs::write(fx.join("home/.config/watchexec/ignore"), "*.ga\n").unwrap();
-    std::fs::write(proj.join(".gitignore"), "*.pv\n").unwrap();
-    std::fs::write(proj.join(".ignore"), "*.pg\n").unwrap();
-    std::fs::write(fx.join("ig.txt"), "*.ex\n").unwrap();
+    std::fs::create_dir_all(fx.join("proj/.git")).unwrap(); std::fs::create_dir_all(fx.join("projb/.git")).unwrap(); std::fs::create_dir_all(fx.join("home/.config/watchexec")).unwrap();
+    let fx = std::fs::canonicalize(&fx).unwrap();
+    // second project: its git config names an excludes file (a discovered, origin-level, VCS-specific source)
+    std::fs::write(fx.join("gc.txt"), "*.gc\n").unwrap();
+    std::fs::write(fx.join("projb/.git/config"), format!("[core]\n\texcludesFile = {}\n", fx.join("gc.txt").display())).unwrap();
+    for p in ["proj", "projb"] { std::fs::write(fx.join(p).join(".gitignore"), "*.pv\n").unwrap(); std::fs::write(fx.join(p).join(".ignore"), "*.pg\n").unwrap(); }
+    std::fs::write(fx.join("home/.gitignore"), "*.gg\n").unwrap();                  // global VCS ignore
+    std::fs::write(fx.join("home/.config/watchexec/ignore"), "*.ga\n").unwrap();    // global application ignore
+    std::fs::write(fx.join("ig.txt"), "*.ex\n").unwrap();                           // explicit --ignore-file
+    std::fs::write(fx.join("ff.txt"), "*.ff\n").unwrap();                           // explicit --filter-file
     std::env::set_var("HOME", fx.join("home")); std::env::set_var("XDG_CONFIG_HOME", fx.join("home/.config"));
-    std::env::remove_var("GIT_CONFIG_GLOBAL"); std::env::set_current_dir(&proj).unwrap();
+    std::env::remove_var("GIT_CONFIG_GLOBAL"); std::env::remove_var("WATCHEXEC_IGNORE_FILES"); std::env::remove_var("WATCHEXEC_FILTER_FILES");
     let flags = ["--no-vcs-ignore", "--no-project-ignore", "--no-global-ignore", "--no-default-ignore", "--no-discover-ignore", "--ignore-nothing"];
-    let probes = ["gg", "ga", "pv", "pg", "ex", "pyc", "ip", "ok"];
-    // which flag removes which source (the spec): index into `flags`
-    let removed_by = |src: &str, on: &[bool]| -> bool { let (v, p, g, d, disc, all) = (on[0], on[1], on[2], on[3], on[4], on[5]); match src {
-        "gg" => g || v || disc || all, "ga" => g || disc || all, "pv" => p || v || disc || all, "pg" => p || disc || all, "pyc" => d || all, _ => false } };
-    let mut bad = 0;
+    let modify = FileEventKind::Modify(ModifyKind::Data(DataChange::Content));
+    let create = FileEventKind::Create(CreateKind::File);
+    // (explicit options, probes: (label, file name, event kind))
+    let variants: Vec<(Vec<OsString>, Vec<(&str, &str, FileEventKind)>)> = vec![
+        (vec!["--ignore-file".into(), fx.join("ig.txt").into(), "--ignore".into(), "*.ip".into()],
+         vec![("gg", "a.gg", modify), ("ga", "a.ga", modify), ("pv", "a.pv", modify), ("pg", "a.pg", modify), ("gc", "a.gc", modify), ("ex", "a.ex", modify), ("pyc", "a.pyc", modify), ("ip", "a.ip", modify), ("ok", "a.ok", modify)]),
+        (vec!["--filter".into(), "*.fl".into(), "--ignore-file".into(), fx.join("ig.txt").into()], vec![("fl", "a.fl", modify), ("ok", "a.ok", modify), ("ex", "a.ex", modify)]),
+        (vec!["--filter-file".into(), fx.join("ff.txt").into()], vec![("ff", "a.ff", modify), ("ok", "a.ok", modify)]),
+        (vec!["--exts".into(), "rs,toml".into(), "--ignore".into(), "b.*".into()], vec![("rs", "a.rs", modify), ("toml", "a.toml", modify), ("brs", "b.rs", modify), ("ok", "a.ok", modify)]),
+        (vec!["--fs-events".into(), "create".into()], vec![("create", "a.ok", create), ("modify", "a.ok", modify)]),
+    ];
+    let mut cases = std::fs::File::create(out("cases.txt")).unwrap();
+    let mut outs = std::fs::File::create(out("impl.txt")).unwrap();
+    for (gc, pname) in [(0, "proj"), (1, "projb")] { let proj = fx.join(pname); std::env::set_current_dir(&proj).unwrap();
     for mask in 0..64u32 {
         let on: Vec<bool> = (0..6).map(|i| mask & (1 << i) != 0).collect();
-        let mut argv: Vec<OsString> = vec!["watchexec".into(), "--project-origin".into(), proj.clone().into(), "-w".into(), proj.clone().into(), "--ignore-file".into(), fx.join("ig.txt").into(), "--ignore".into(), "*.ip".into()];
-        for (i, f) in flags.iter().enumerate() { if on[i] { argv.push((*f).into()); } }
-        argv.push("--".into()); argv.push("true".into());
-        let args = verif::args_from(argv).await.unwrap();
-        let filt = verif::WatchexecFilterer::new(&args).await.unwrap();
-        let mut row = vec![]; let mut wrong = vec![];
-        for s in probes {
-            let pass = filt.check_event(&probe(proj.join(format!("a.{s}"))), Priority::Normal).unwrap();
-            let want_pass = s == "ok" || removed_by(s, &on);
-            row.push(format!("{s}:{}", if pass { "pass" } else { "ign" }));
-            if pass != want_pass { wrong.push(s); }
+        let mut rows = vec![];
+        for (opts, probes) in &variants {
+            let mut argv: Vec<OsString> = vec!["watchexec".into(), "--project-origin".into(), proj.clone().into(), "-w".into(), proj.clone().into()];
+            argv.extend(opts.iter().cloned());
+            for (i, f) in flags.iter().enumerate() { if on[i] { argv.push((*f).into()); } }
+            argv.push("--".into()); argv.push("true".into());
+            let row = match verif::args_from(argv).await { Err(e) => format!("args-error:{e}"), Ok(args) => match verif::WatchexecFilterer::new(&args).await { Err(e) => format!("filterer-error:{e}"), Ok(filt) =>
+                probes.iter().map(|(label, file, kind)| format!("{label}:{}", match filt.check_event(&probe(proj.join(file), *kind), Priority::Normal) { Ok(true) => "pass", Ok(false) => "ign", Err(_) => "err" })).collect::<Vec<_>>().join(" ") } };
+            rows.push(row);
         }
-        if !wrong.is_empty() { bad += 1; println!("mask {:06b} [{}] -> {}   WRONG: {:?}", mask, flags.iter().enumerate().filter(|(i, _)| on[*i]).map(|(_, f)| &f[5..]).collect::<Vec<_>>().join(" "), row.join(" "), wrong); }
-    }
-    println!("combinations with a probe differing from the spec: {bad} of 64");
+        writeln!(cases, "FLAGS\t{gc}\t{mask}").unwrap();
+        writeln!(outs, "{}", rows.join("|")).unwrap();
+    } }
     std::fs::remove_dir_all(&fx).ok();
 }
